@@ -15,6 +15,7 @@ import (
 	"fmt"
 	"os"
 	"runtime"
+	"sync"
 	"time"
 )
 
@@ -36,6 +37,33 @@ type State struct {
 	Observed []string
 	Covered  []string
 	Known    []string
+
+	mu sync.Mutex
+	// aborted is the first Assume/Assert/vector failure of the run, whichever
+	// goroutine of the harness raised it.
+	aborted any
+}
+
+// abort records the first failure of the run and ends the calling goroutine
+// (deferred calls still run).  Panicking instead would take the whole test
+// process down when the failure is raised in a goroutine the harness
+// started.
+func abort(why any) {
+	if cur != nil {
+		cur.mu.Lock()
+		if cur.aborted == nil {
+			cur.aborted = why
+		}
+		cur.mu.Unlock()
+	}
+	runtime.Goexit()
+}
+
+// Aborted returns the first recorded failure of the run, if any.
+func (s *State) Aborted() any {
+	s.mu.Lock()
+	defer s.mu.Unlock()
+	return s.aborted
 }
 
 var cur *State
@@ -51,7 +79,7 @@ func next() uint64 {
 		panic("verifrt: no replay vector installed (harnesses only run under gosym or gosym replay)")
 	}
 	if cur.pos >= len(cur.Vector) {
-		panic(VectorExhausted{})
+		abort(VectorExhausted{})
 	}
 	v := cur.Vector[cur.pos]
 	cur.pos++
@@ -71,7 +99,7 @@ func Bool() bool     { return byte(next()) != 0 }
 func Len(max int) int {
 	v := int(next())
 	if v < 0 || v > max {
-		panic(AssumptionFailed{})
+		abort(AssumptionFailed{})
 	}
 	return v
 }
@@ -80,7 +108,7 @@ func Len(max int) int {
 func Choice(n int) int {
 	v := int(next())
 	if v < 0 || v >= n {
-		panic(AssumptionFailed{})
+		abort(AssumptionFailed{})
 	}
 	return v
 }
@@ -100,14 +128,14 @@ func String(n int) string { return string(Bytes(n)) }
 // Assume restricts the inputs considered.
 func Assume(c bool) {
 	if !c {
-		panic(AssumptionFailed{})
+		abort(AssumptionFailed{})
 	}
 }
 
 // Assert states the property.
 func Assert(c bool, msg string) {
 	if !c {
-		panic(AssertionFailed{Msg: msg})
+		abort(AssertionFailed{Msg: msg})
 	}
 }
 
